@@ -800,6 +800,9 @@ func (envs *Manager) TeardownEnvironment(environmentId uid.ID, force bool) error
 		WorkflowTemplateInfo: env.GetWorkflowInfo(),
 	})
 
+	// every DESTROY hook task is released at the end, whatever its weight and whether or not it could be triggered
+	hookTasksToRelease := make(task.Tasks, 0)
+
 	// we trigger all cleanup hooks, first calls, then tasks immediately after
 	for _, weight := range allWeights {
 		hooksForWeight, ok := hooksMapForDestroy[weight]
@@ -808,6 +811,7 @@ func (envs *Manager) TeardownEnvironment(environmentId uid.ID, force bool) error
 
 			// calls done, we start the task hooks...
 			cleanupTaskHooks := hooksForWeight.FilterTasks()
+			hookTasksToRelease = append(hookTasksToRelease, cleanupTaskHooks...)
 
 			// ...but only if their parent role is still ACTIVE (i.e. not killed or executor failed)
 			cleanupTaskHooks = cleanupTaskHooks.Filtered(func(t *task.Task) bool {
@@ -823,10 +827,10 @@ func (envs *Manager) TeardownEnvironment(environmentId uid.ID, force bool) error
 					Warn("environment post-destroy hooks failed")
 			}
 
-			// and then we kill them too
-			taskmanMessage = task.NewEnvironmentMessage(taskop.ReleaseTasks, environmentId, cleanupTaskHooks, nil)
 		}
 	}
+	// and then we kill them too
+	taskmanMessage = task.NewEnvironmentMessage(taskop.ReleaseTasks, environmentId, hookTasksToRelease, nil)
 
 	envs.cancelCallsPendingAwait(env)
 
